@@ -110,6 +110,7 @@ PLANS = {
                   ex("prattP5", "prattP", 1, 5, alphabet=["a", "+", "*", "-"], modes=["E"], invariants=DEFAULT_INVARIANTS + ["PrattFlatten"]),
                   ex("prattM", "prattM", 1, 4, alphabet=["a", "*", "-", "!"], modes=["E"], invariants=DEFAULT_INVARIANTS + ["PrattFlatten"]),
                   ex("prattRec", "prattRec", 1, 4, alphabet=["a", "+", "*", "(", ")"], modes=["E"]),
+                  ex("prattH", "prattH", 1, 4, alphabet=["a", "+", "*", "-", "!"], invariants=DEFAULT_INVARIANTS + ["PrattFlatten"]),
                   rec("prattR", "pratt", 2500, 6, 9)],
         "thorough": [ex("pratt", "pratt", 1, 5, alphabet=["a", "+", "*", "-", "!", "^"], modes=["E"], timeout=4000, invariants=DEFAULT_INVARIANTS + ["PrattFlatten"]),
                      ex("prattC", "pratt", 1, 4, alphabet=["a", "+", "*", "-", "!", "^"], modes=["C"], timeout=3000, invariants=DEFAULT_INVARIANTS + ["PrattFlatten"]),
@@ -236,6 +237,7 @@ PLANS = {
         "quick": [ex("peg2", "peg", 2, 3, etys=["rich", "empty"]), ex("err2", "err", 2, 3, etys=ALL_ETYS),
                   ex("lbl2", "lbl", 2, 3, etys=["empty", "cheap"]), ex("rcv2", "rcv", 2, 3, etys=["empty", "simple"]), ex("memo2", "memo", 2, 3, etys=["empty"]),
                   ex("cfgT", "cfgT", 1, 3, modes=["E"]), ex("lrec", "lrec", 1, 4, alphabet=["a", "+"], invariants=NO_DEN),
+                  ex("prattH", "prattH", 1, 3, alphabet=["a", "+", "*", "-", "!"]),
                   rec("pegR", "peg", 1500, 8, 8, etys=ALL_ETYS), rec("lblR", "lbl", 1000, 8, 8, etys=ALL_ETYS), rec("rcvR", "rcv", 1000, 8, 8, etys=ALL_ETYS),
                   rec("memoR", "memo", 1000, 8, 8, etys=ALL_ETYS),
                   deep("deep", ["prefix", "infixr", "infixl", "postfix", "repeat", "paren"], [3000, 60000])],
